@@ -105,16 +105,20 @@ type Func struct {
 
 // Method is a declared converter method with its effective settings.
 type Method struct {
-	Name     string               `json:"name"`
-	Settings Settings             `json:"settings"`
-	Source   *spec.T              `json:"source"`
-	Target   *spec.T              `json:"target"`
-	Contexts []*spec.T            `json:"contexts,omitempty"`
-	Err      bool                 `json:"err,omitempty"`
-	Update   bool                 `json:"update,omitempty"`
-	Fields   map[string]*FieldCfg `json:"fields,omitempty"`
-	AutoMap  []string             `json:"autoMap,omitempty"`
-	EnumMap  map[string]string    `json:"enumMap,omitempty"`
+	Name     string    `json:"name"`
+	Settings Settings  `json:"settings"`
+	Source   *spec.T   `json:"source"`
+	Target   *spec.T   `json:"target"`
+	Contexts []*spec.T `json:"contexts,omitempty"`
+	Err      bool      `json:"err,omitempty"`
+	Update   bool      `json:"update,omitempty"`
+	// NoExec: the method is generated and compiled but not executed by the driver (its own
+	// behaviour behind generated helpers is not fixed by the statements; it is there for what it
+	// does to its siblings)
+	NoExec  bool                 `json:"noExec,omitempty"`
+	Fields  map[string]*FieldCfg `json:"fields,omitempty"`
+	AutoMap []string             `json:"autoMap,omitempty"`
+	EnumMap map[string]string    `json:"enumMap,omitempty"`
 	// EnumTransform: configs of `enum:transform regex PATTERN REPLACEMENT`
 	EnumTransform []string `json:"enumTransform,omitempty"`
 	Default       *Func    `json:"default,omitempty"`
